@@ -172,6 +172,10 @@ def eval_root(crate, key, config_std=False, slice_len=None):
 
 def run(chk, tier, only_crate=None):
     configs = [("default", facts.CRATES), ("jitter-std", ["rand_jitter"])]
+    if tier == "thorough":
+        # every root once more in the serde configuration of the crates that have one (the derive output is not a generator
+        # operation and is left out by roots_of; what is re-examined is that enabling the feature changes no panic edge)
+        configs.append(("serde", ["rand_xoshiro", "rand_xorshift", "rand_isaac"]))
     total_asserts = {}
     for config, names in configs:
         for cname in names:
@@ -291,7 +295,7 @@ def run(chk, tier, only_crate=None):
                                                                             [T.show(x, 2) for x in p["assume"][-3:]]),
                        where=sp, nontrivial=True,
                        sample={"panic_site": fnn, "documented": documented})
-            if config == "default":
+            if config in ("default", "serde"):
                 chk.floor("R0", "assert edges in %s" % cname, nass, FLOORS[cname])
                 chk.floor("R0", "API roots evaluated in %s" % cname, nroots, ROOT_FLOORS[cname])
     chk.trusted_base = TRUSTED
